@@ -148,6 +148,12 @@ func cmdCheck(args []string) int {
 	cfg := interp.Config{Workers: *workers, Deadline: deadline, MaxPaths: spec.MaxPaths[*tier], Verbose: *verbose,
 		ModulePrefix: "github.com/crossplane/crossplane", Seed: seed, StepLimit: spec.StepLimit,
 		Solver: spec.Solver, QueryTimeoutMs: spec.QueryTimeoutMs}
+	// "holds" verdicts are sampled for a second opinion from the other z3
+	// build: every 40th in the quick tier, every 10th in the thorough tier
+	cfg.CrossCheckEvery = 40
+	if *tier == "thorough" {
+		cfg.CrossCheckEvery = 10
+	}
 	nValidate := 32
 	if n, ok := spec.Validate[*tier]; ok {
 		nValidate = n
@@ -172,7 +178,7 @@ func cmdCheck(args []string) int {
 	intrinsics := map[string]bool{}
 	var samples []interface{}
 	tot := struct {
-		states, transitions, validated, feasQ, assertQ, assertSat, assertUnsat, assertUnknown, solverErrors, solverUnknown, solverFallbacks int
+		states, transitions, validated, feasQ, assertQ, assertSat, assertUnsat, assertUnknown, solverErrors, solverUnknown, solverFallbacks, crossChecked, crossDisagree int
 		solverTime                                                                                                         time.Duration
 	}{}
 	writeEvidence := func(status string) {
@@ -199,7 +205,7 @@ func cmdCheck(args []string) int {
 				"queries": map[string]int{
 					"feasibility": tot.feasQ, "assertion": tot.assertQ, "assertion_sat": tot.assertSat,
 					"assertion_unsat": tot.assertUnsat, "assertion_unknown": tot.assertUnknown,
-					"solver_unknown": tot.solverUnknown, "second_solver_queries": tot.solverFallbacks, "solver_error_lines": tot.solverErrors,
+					"solver_unknown": tot.solverUnknown, "second_solver_queries": tot.solverFallbacks, "unsat_verdicts_cross_checked": tot.crossChecked, "cross_check_disagreements": tot.crossDisagree, "solver_error_lines": tot.solverErrors,
 				},
 				"solver_time_s":  tot.solverTime.Seconds(),
 				"solvers":        []string{"z3 4.8.12 (/usr/bin/z3 -in)"},
@@ -268,6 +274,8 @@ func cmdCheck(args []string) int {
 		tot.assertSat += rep.AssertSat
 		tot.assertUnsat += rep.AssertUnsat
 		tot.assertUnknown += rep.AssertUnknown
+		tot.crossChecked += rep.CrossChecked
+		tot.crossDisagree += rep.CrossDisagree
 		tot.solverErrors += rep.Solver.Errors
 		tot.solverFallbacks += rep.Solver.Fallbacks
 		tot.solverUnknown += rep.Solver.Unknown
